@@ -3,7 +3,11 @@ package sut
 import (
 	"crypto/sha512"
 	"encoding/base64"
+	"encoding/hex"
+	"fmt"
 	"math"
+	"net/url"
+	"regexp"
 	"sort"
 	"strconv"
 	"strings"
@@ -25,6 +29,7 @@ var PidPool = map[string]string{
 	"u2": "u2@x.io",
 	"u3": "we;rd,3;;@x.io",
 	"g1": "g1@x.io",
+	"u2s": "u2-secondary@x.io", // a declared secondary address of u2, not an account
 	// OAuth2 accounts: provider pa/pb, uid x / y
 	"o_pa_x": authboss.MakeOAuth2PID("pa", "x1"),
 	"o_pa_y": authboss.MakeOAuth2PID("pa", "y 2"),
@@ -50,7 +55,10 @@ func AbsPid(concrete string) string {
 }
 
 // PwPool are policy-conformant passwords; index+1 is the abstract id.
-var PwPool = []string{"Aa1!aaaa", "Bb2@bbbbb", "Cc3#cccccc", "Aa1!aaab"}
+// The fifth one is shaped like a bcrypt digest (a password manager may well
+// produce such a string); it must be hashed like any other password.
+var PwPool = []string{"Aa1!aaaa", "Bb2@bbbbb", "Cc3#cccccc", "Aa1!aaab",
+	"$2a$04$N9qo8uLOickgx2ZMRZoMyeIjZAgcfl7p92ldGxad68LJZdL17lhWy"}
 
 var PhonePool = []string{"+15550001", "+15550002"}
 
@@ -486,4 +494,78 @@ func RawHasSemicolon(cookie string, pidLen int) bool {
 		return false
 	}
 	return strings.Contains(string(raw[pidLen+1:]), ";")
+}
+
+// ---- C17: secrets must never be stored or logged in recoverable form ----------
+
+type Leak struct {
+	Where string `json:"where"`
+	Kind  string `json:"kind"`
+}
+
+func forms(v string) []string {
+	out := []string{v, base64.StdEncoding.EncodeToString([]byte(v)), base64.URLEncoding.EncodeToString([]byte(v)),
+		hex.EncodeToString([]byte(v)), url.QueryEscape(v)}
+	if raw, err := base64.URLEncoding.DecodeString(v); err == nil && len(raw) >= 16 {
+		out = append(out, string(raw), base64.StdEncoding.EncodeToString(raw), hex.EncodeToString(raw))
+	}
+	return out
+}
+
+var logStamp = regexp.MustCompile(`(?m)^\S+ \[(INFO|EROR)\]: `)
+
+// Scan looks for every plaintext secret known to the harness (passwords typed,
+// one-time passwords and recovery codes shown, remember cookies, mailed tokens)
+// in every stored string field, the remember-token table and the log lines of
+// the last step.
+func (w *World) Scan(log string) []Leak {
+	leaks := []Leak{}
+	type field struct{ where, val string }
+	var fields []field
+	for _, pid := range w.In.Store.PIDs() {
+		u := w.In.Store.Peek(pid)
+		a := AbsPid(pid)
+		for n, v := range map[string]string{"Password": u.Password, "ConfirmSelector": u.ConfirmSelector, "ConfirmVerifier": u.ConfirmVerifier,
+			"RecoverSelector": u.RecoverSelector, "RecoverVerifier": u.RecoverVerifier, "OTPs": u.OTPs, "RecoveryCodes": u.RecoveryCodes,
+			"TOTPLastCode": "", "OAuth2Token": "", "Email": u.Email} {
+			fields = append(fields, field{"store:" + a + "." + n, v})
+		}
+		for k, v := range u.Arbitrary {
+			fields = append(fields, field{"store:" + a + ".Arbitrary." + k, v})
+		}
+	}
+	for pid, toks := range w.In.Store.RememberTokens() {
+		for _, t := range toks {
+			fields = append(fields, field{"store:remember." + AbsPid(pid), t})
+		}
+	}
+	clean := logStamp.ReplaceAllString(log, "")
+	fields = append(fields, field{"log", clean})
+	secrets := append([]Secret(nil), w.Secrets...)
+	for i, p := range PwPool {
+		secrets = append(secrets, Secret{"password", fmt.Sprint(i + 1), p})
+	}
+	secrets = append(secrets, Secret{"password", "junk", "Zz9?wrong-password"})
+	seen := map[string]bool{}
+	for _, s := range secrets {
+		if len(s.Val) < 6 || s.Kind == "smscode" {
+			continue
+		}
+		for _, f := range forms(s.Val) {
+			if len(f) < 6 {
+				continue
+			}
+			for _, fl := range fields {
+				if fl.val != "" && strings.Contains(fl.val, f) {
+					key := fl.where + "|" + s.Kind
+					if !seen[key] {
+						seen[key] = true
+						leaks = append(leaks, Leak{fl.where, s.Kind})
+					}
+				}
+			}
+		}
+	}
+	sort.Slice(leaks, func(i, j int) bool { return leaks[i].Where+leaks[i].Kind < leaks[j].Where+leaks[j].Kind })
+	return leaks
 }
